@@ -497,8 +497,8 @@ func preInstantiate(lines []string, pc, goal string, nameHint int, baseSorts map
 			}
 			sort2 := sort
 			sortKeys(keys)
-			if len(keys) > 10 {
-				keys = keys[:10]
+			if len(keys) > 6 {
+				keys = keys[:6]
 			}
 			for _, k := range keys {
 				cs[sort2] = append(cs[sort2], m[k])
@@ -529,7 +529,7 @@ func preInstantiate(lines []string, pc, goal string, nameHint int, baseSorts map
 			indexTerms(inst, names, sorts, next)
 		}
 		cands = next
-		if len(extra) > 400 {
+		if len(extra) > 200 {
 			break
 		}
 	}
